@@ -423,24 +423,67 @@ func c13Amounts(r *core.Run, p *core.Program) {
 			})
 			r.Check(okAddr, rule, "requests/"+fnn+"/address-checked", p.Pos(f.Pos()), "the destination was passed to assert_address_version", fnn+" stores a destination that was not checked against the wallet's network")
 		}
-		// -f: the subtraction is guarded
-		an.Instrs(f, func(i ssa.Instruction) {
-			bo, ok := i.(*ssa.BinOp)
-			if !ok || bo.Op != token.SUB || an.Expr(bo.Y) != "wallet.curFee" {
-				return
-			}
-			x := an.Expr(bo.X)
-			g := c13ExitGuard(bo, func(c string) (bool, bool) {
-				switch c {
-				case "(" + x + " < wallet.curFee)":
-					return true, true
-				case "(" + x + " >= wallet.curFee)":
-					return true, false
+		// the amount stored is the parsed amount; with -f (parse_spend, first destination) minus the fee
+		if am != nil {
+			var parsed, subs []ssa.Value
+			var odd []string
+			for _, leaf := range an.PhiLeaves(am) {
+				e := an.Expr(leaf)
+				switch {
+				case strings.HasPrefix(e, "lib/btc.StringToSatoshis(") && strings.HasSuffix(e, ")#0"):
+					parsed = append(parsed, leaf)
+				default:
+					if bo, ok := leaf.(*ssa.BinOp); ok && bo.Op == token.SUB {
+						subs = append(subs, leaf)
+					} else {
+						odd = append(odd, e)
+					}
 				}
-				return false, false
-			})
-			r.Check(g, rule, "requests/"+fnn+"/subfee-guard", p.Pos(bo.Pos()), "the fee is subtracted only from an amount that covers it", "the fee is subtracted from an amount that may be smaller (unsigned wrap-around)")
-		})
+			}
+			wantSub := 0
+			if fnn == "parse_spend" {
+				wantSub = 1
+			}
+			if !r.Check(len(parsed) == 1 && len(odd) == 0 && len(subs) == wantSub, rule, "requests/"+fnn+"/amount", p.Pos(f.Pos()), "the stored amount is the parsed amount"+map[int]string{0: "", 1: ", or that minus the fee under -f"}[wantSub], fmt.Sprintf("%s stores an amount with %d parsed source(s), %d subtraction(s) (expected %d) and other sources %v", fnn, len(parsed), len(subs), wantSub, odd)) {
+				continue
+			}
+			for _, sv := range subs {
+				bo := sv.(*ssa.BinOp)
+				x, fee := an.Expr(bo.X), an.Expr(bo.Y)
+				okFee := fee == "wallet.curFee"
+				if fee == "wallet.feeBtc" {
+					// usable only if feeBtc already holds the fee when the parser runs
+					if sr := c13w(p, "send_request"); sr != nil {
+						for _, c := range c13Calls(sr, "wallet."+fnn) {
+							c13Stores(sr, func(st *ssa.Store, addr string) {
+								if addr == "&wallet.feeBtc" && an.Expr(st.Val) == "wallet.curFee" && (st.Block() != c.Block() && st.Block().Dominates(c.Block()) || st.Block() == c.Block() && st.Pos() < c.Pos()) {
+									okFee = true
+								}
+							})
+						}
+					}
+				}
+				r.Check(okFee && bo.X == parsed[0], rule, "requests/"+fnn+"/subfee-amount", p.Pos(bo.Pos()), "with -f the first amount is the parsed amount minus the configured fee", "the value subtracted under -f is "+fee+" from "+x+", which is not the configured fee (curFee) at that point")
+				cs := an.DomConds(bo.Block())
+				first := false
+				for _, c := range cs {
+					if strings.HasSuffix(c.Cond, " == 0)") && c.True && strings.Contains(c.Cond, "phi:") {
+						first = true
+					}
+				}
+				r.Check(an.HasCond(cs, "*wallet.subfee", true) && first, rule, "requests/"+fnn+"/subfee-when", p.Pos(bo.Pos()), "only under -f and only for the first destination", "the fee subtraction is not conditional on -f and the first destination")
+				g := c13ExitGuard(bo, func(c string) (bool, bool) {
+					switch c {
+					case "(" + x + " < " + fee + ")":
+						return true, true
+					case "(" + x + " >= " + fee + ")":
+						return true, false
+					}
+					return false, false
+				})
+				r.Check(g, rule, "requests/"+fnn+"/subfee-guard", p.Pos(bo.Pos()), "the fee is subtracted only from an amount that covers it", "the fee is subtracted from an amount that may be smaller (unsigned wrap-around)")
+			}
+		}
 	}
 	ok := true
 	for _, w := range writers["sendTo"] {
@@ -611,10 +654,10 @@ func c13Guards(r *core.Run, p *core.Program) {
 type c13Site struct {
 	key    string
 	callee string
-	in     int               // argument position of the input index
-	args   map[int]string    // expected renderings; $IN $UO $K $PROG $VER $ADDR are substituted
-	conds  map[string]bool   // required dominating branch outcomes
-	kArg   int               // argument position of the private key (-1: none)
+	in     int             // argument position of the input index
+	args   map[int]string  // expected renderings; $IN $UO $K $PROG $VER $ADDR are substituted
+	conds  map[string]bool // required dominating branch outcomes
+	kArg   int             // argument position of the private key (-1: none)
 }
 
 func c13Dispatch(r *core.Run, p *core.Program) {
@@ -1015,16 +1058,16 @@ func c13Effects(r *core.Run, p *core.Program) {
 		return n == "wallet.raw_tx_from_file" || n == "wallet.getUO" || n == "wallet.dump_tx" || n == "wallet.ask_yes_no"
 	})
 	allowed := map[string]string{
-		"lib/btc.TxIn.ScriptSig":   "signature script",
-		"lib/btc.Tx.SegWit":        "witness data",
-		"lib/btc.Tx.SegWit[]":      "witness data",
-		"lib/btc.Tx.Hash":          "id cache",
-		"lib/btc.Tx.wTxID":         "id cache",
-		"lib/btc.Tx.Size":          "size cache",
-		"lib/btc.Tx.NoWitSize":     "size cache",
-		"lib/btc.Tx.Raw":           "raw cache",
-		"lib/btc.Tx.TxVerVars":     "verification cache",
-		"lib/btc.Uint256.Hash":     "id cache",
+		"lib/btc.TxIn.ScriptSig": "signature script",
+		"lib/btc.Tx.SegWit":      "witness data",
+		"lib/btc.Tx.SegWit[]":    "witness data",
+		"lib/btc.Tx.Hash":        "id cache",
+		"lib/btc.Tx.wTxID":       "id cache",
+		"lib/btc.Tx.Size":        "size cache",
+		"lib/btc.Tx.NoWitSize":   "size cache",
+		"lib/btc.Tx.Raw":         "raw cache",
+		"lib/btc.Tx.TxVerVars":   "verification cache",
+		"lib/btc.Uint256.Hash":   "id cache",
 	}
 	protected := map[string]bool{"lib/btc.Tx": true, "lib/btc.TxIn": true, "lib/btc.TxOut": true, "lib/btc.TxPrevOut": true}
 	nf, nw := 0, 0
